@@ -76,10 +76,10 @@ package geometry
 //@   ret use onSegParam(seg.A, seg.B, other.A)
 //@   ret use onSegParam(seg.A, seg.B, other.B)
 //@   ret use onSegParam(other.A, other.B, seg.A)
-//@   ret 8 let $s = ite(seg.A == other.A || seg.A == other.B, 0, 1) ; $t = ite(seg.A == other.A, 0, ite(seg.A == other.B, 1, ite(seg.B == other.A, 0, 1)))
-//@   ret 9 let $s = ite(onSeg(seg.A, seg.B, other.A), param(seg.A, seg.B, other.A), ite(onSeg(seg.A, seg.B, other.B), param(seg.A, seg.B, other.B), 0)) ; $t = ite(onSeg(seg.A, seg.B, other.A), 0, ite(onSeg(seg.A, seg.B, other.B), 1, param(other.A, other.B, seg.A)))
-//@   ret 10 let $s = param(seg.A, seg.B, other.A) ; $t = 0
-//@   ret 13 let $s = t ; $t = u
+//@   ret "return true"#1 let $s = ite(seg.A == other.A || seg.A == other.B, 0, 1) ; $t = ite(seg.A == other.A, 0, ite(seg.A == other.B, 1, ite(seg.B == other.A, 0, 1)))
+//@   ret "return seg.Raycast(other.A).On ||"#1 let $s = ite(onSeg(seg.A, seg.B, other.A), param(seg.A, seg.B, other.A), ite(onSeg(seg.A, seg.B, other.B), param(seg.A, seg.B, other.B), 0)) ; $t = ite(onSeg(seg.A, seg.B, other.A), 0, ite(onSeg(seg.A, seg.B, other.B), 1, param(other.A, other.B, seg.A)))
+//@   ret "return true"#2 let $s = param(seg.A, seg.B, other.A) ; $t = 0
+//@   ret "return true"#3 let $s = t ; $t = u
 
 // ---------------------------------------------------------------- C18 / C11: processPoints
 
